@@ -31,6 +31,24 @@ Theorem C06_replace : forall k a ch g md md' n e,
 Proof. exact overwrite_replaces. Qed.
 Print Assumptions C06_replace.
 
+(* the same with no success premise (WriteTotal.final_metadata_total: under wf_input the metadata computation fails only on an axis
+   property whose array holds fewer values than its shape says) *)
+From Geff Require WriteTotal.
+Theorem C06_replace_total : forall k a ch g md n e,
+  ahas "geff" a = true -> (k = KPath \/ k = KObj) ->
+  wf_input g md n e -> WriteTotal.axes_have_data g md ->
+  exists md', final_metadata g md = Ok md' /\
+  let post := layout (cleaned k a ch) g (backfill (w_nids g) md (w_nprops g)) md' in
+  (exists tr, write_arrays k g md true true (init (Some (ZG a ch))) = (mkst (Some post) tr, Ok tt)) /\
+  validate_structure k (Some post) = Ok tt /\
+  read_to_memory k (Some post) true None None
+  = Ok (mkmg md' (w_nids g) (w_eids g) (up_props (backfill (w_nids g) md (w_nprops g))) (up_props (w_eprops g))).
+Proof.
+  intros k a ch g md n e Hg Hk Hwf Hd. destruct (WriteTotal.final_metadata_total g md n e Hwf Hd) as [md' Hfm].
+  exists md'. split; [exact Hfm|]. exact (overwrite_replaces k a ch g md md' n e Hg Hk Hwf Hfm).
+Qed.
+Print Assumptions C06_replace_total.
+
 (* the same layout function describes a write to an empty location (C01_layout with pre = cleaned ...): overwrite is
    indistinguishable from writing the new graph where the old geff has been removed *)
 Theorem C06_as_fresh : forall k pre s g md md' v n,
